@@ -8,8 +8,9 @@ kf=json.load(open('/verif/known_findings.json'))
 log=subprocess.run(['git','-C','/repo','log','--reverse','--format=%h %s'],capture_output=True,text=True).stdout.splitlines()
 fixes=[l for l in log if ' fix: ' in l]
 hooks=[l for l in log if 'verif hooks' in l]
-sec13=["## 13. What the checks found on the pinned tree, and what was done\n",
-"Every violation reported on the unchanged tree was triaged (real code wrong vs check wrong). Check-side mistakes that were corrected include: the f-string printer produced `{{` for an interpolated block (C08), `return if ..` needs parentheses (C08), `&&`/`||` mixtures in generated conditions (C03), a closure that captured only the `Copy` field of a tracked value (C11), the address order of the two lists became an uncontrolled input after the lock-order repair (C16: both orders are now enumerated), a seeded change that only made the evaluator panic (C20, not a violation), an equivalent mutant (C01 `else-branch-skips-assign`), and many generator / oracle corrections inside the sub-agent-built checks (listed in their reports; e.g. C04 a name that designated two things, C07 let-shadowing treated as unspecified, C13 `pkg.`-prefixed lookups unspecified). Two mistakes in the machinery itself were found late and are worth recording: (1) the thorough tier of C01 materialised a 16-bit truth table (2^32 input pairs) and 888 246 expanded skeleton programs (19 GB) per worker; the kernel's OOM killer shot 530 worker processes during that run and the memory pressure made *other* checks that ran at the same time report wall-clock `hang`s that were not real (a seeded change was briefly recorded as caught on the strength of such deaths and had to be re-verified: it was missed, and C13 was then strengthened). Since then skeleton programs are expanded per chunk (0.4 GB per worker), the 16-bit table is `all x 7 pivots` both ways, the unit table is computed once by the parent, every verdict `hang` is decided by **CPU time** (vcore watchdog: CPU seconds used on the marked case, with an 8x wall-clock backstop for blocked workers; C06 fork probes: RLIMIT_CPU), `c00wd` self-tests the watchdog (spinner killed, sleeper killed, slow-but-progressing unit not killed), and a seeded change only counts as caught when the check reports violations with `deaths=0` or deaths whose class is the expected crash. (2) `seeded_verify.sh` truncated the check's output after eight lines, which hid the summary line of two runs. Observed but outside the 20 properties (no check claims it, nothing was repaired): the parser rejects some valid programs — `return 0xFF`, `return 'a'`, `return f\"..\"`, `return if c { 1 } else { 2 }` and `let y = { f\"a{x}\" };` are parse errors while their parenthesised forms compile (`can_start_expression` lacks the hex, char, f-string, `if` and `match` tokens; a block that starts with an f-string is mis-lexed by the three-token look-ahead); the generators of C01/C08 put parentheses there. Integer literals above `i64::MAX` are rejected even where the context is `u64`. **Auditing sub-agents.** Late in the build one sub-agent per property was asked to find inputs on which the *current* tree violates the property (reports under `/tmp/audit/CNN/report.md` at the time; every confirmed item is now either a repair in `/repo` with a regression mutant, a known finding reproduced by a check, or listed here). They found what the bounded enumerations had not reached: 14 of the repairs below and most of the known findings added on the last day come from them, and each one led to a new family in a check (C03 early exits in aggregates and guards, C06 L8 and the uninhabited-type / sharing / file-name inputs, C07 never-type and type-path edits, C08 f-string first in a block, C09 head operands / escaped braces / CRLF, C11 script-made lists, C12 StringBuf constants and stack discipline, C13 type positions and module names, C14 container constants, C15 float elements and zero-sized doubling, C05 over-aligned types). Confirmed by an audit but NOT reproduced by a check (no claim is made about them): `==` / `contains` / `index` on a list of lists hold only the outer lock and take the inner locks pair by pair, so a concurrent push to two inner lists can make `o1 == o2` true although the lists differ at every instant (C16 explores flat `u64` lists only); `String.repeat(u64::MAX)` aborts with `capacity overflow` (treated as memory exhaustion); `print` to a closed stdout aborts the host; dependency chains of more than ~15 000 declarations overflow the compiler's stack depending on declaration order.\n",
+# the prose of section 13 (before "Genuine defects:") is hand-written: keep what DESIGN.md has
+_a=s.index('## 13. What the checks found'); _b=s.index('Genuine defects: **', _a)
+sec13=[s[_a:_b].rstrip("\n")+"\n",
 f"Genuine defects: **{len(fixes)} were repaired** with `fix:` commits in `/repo` (each small, the 415-test suite unedited and green after each), **{len(kf['findings'])} are recorded as known findings**. `known_findings.json` holds the literal failing inputs (`fixed` entries suppress nothing).\n",
 "### Repairs (`git -C /repo log`)\n"]
 for l in fixes:
@@ -49,7 +50,7 @@ sec14.append("\nNot caught, and why: C08 `args-before-receiver` was missed at fi
 
 tab=subprocess.run(['python3','/verif/tools_seeded_table.py'],capture_output=True,text=True).stdout
 sec15=["## 15. Independent seeded changes (sub-agents given only the property text)\n",
-"Each change was produced by a fresh sub-agent that saw only the property text and its own worktree, and was confirmed by `seeded_verify.sh` in a scratch worktree (patch applies; the repository's suite passes with it; the demonstration fails with it and passes without it) before the check(s) were run against it. Files: `seeded/<id>/{patch.diff, demo.rs, demo.md, meta.json, verification.log}`. 'First verdict' is what the check said before it was strengthened.\n",
+"Each change was produced by a fresh sub-agent that saw only the property text and its own worktree, and was confirmed by `seeded_verify.sh` in a scratch worktree (patch applies; the repository's suite passes with it; the demonstration fails with it and passes without it) before the check(s) were run against it. Files: `seeded/<id>/{patch.diff, demo.rs, demo.md, meta.json, verification.log}`. 'First verdict' is what the check said before it was strengthened. Six changes of the fourth round (C02-4 wildcard payload positions in match patterns, C03-5 working variable reassigned while in use, C06-4 arity check skipped for forward references, C08-4 literal operands folded with their effects, C10-4 `Prefix.new` on IPv6 addresses embedding an IPv4 address, C11-5 drops during panic unwinding / code pages not freed) were confirmed and drove the families named in the commit log of `/verif`, but their files lived under `/tmp` and were lost when the sandbox was restored before they had been copied here; they are not counted below. The fifth round (ids C01-4, C02-5, C03-6, C04-4, C05-4, C06-5, C07-4, C08-5, C09-4, C10-5, C11-6, C12-4, C15-4, C16-5, C20-5 and later) gave each sub-agent a focus suggestion of my own next to the property text (never anything from `/verif`); where an author re-invented an earlier change (C01-4, C05-4, C07-4, C09-4, C11-6, C12-4) a second agent was started with a different focus.\n",
 tab]
 new="\n".join(sec13)+"\n"+"\n".join(sec14)+"\n"+"\n".join(sec15)
 i=s.index('## 13. What the checks found')
